@@ -1264,8 +1264,28 @@ func (c *Ctx) recursionGates(fns []*ssa.Function, reach map[*ssa.Function]bool) 
 		case e.from == e.to && com.StaticCallee() == e.to:
 			// self-recursion over an object graph the input builds (procedures can contain
 			// themselves, more than once): only a visited set bounds both the depth and the total work
+			// … and the depth of the recursion — the nesting depth of the object — must be bounded where
+			// nesting costs nothing: every place that opens a procedure body (appends to the list of
+			// open bodies) is dominated by a constant bound on the number of open bodies; nesting built
+			// by operators costs one operation per level and is bounded by the budget
+			nPush, nBounded := 0, 0
+			for _, g := range c.modFuncs {
+				eachInstr(g, func(ins ssa.Instruction) {
+					if st, ok := ins.(*ssa.Store); ok && isFieldAddr(st.Addr, ia.T, c.fld("intp.procStart")) {
+						if _, isCall := st.Val.(*ssa.Call); isCall {
+							nPush++
+							if k, ok := upperBoundConst(domConds(st.Block()), func(v ssa.Value) bool { return lenOfField(v, ia.T, c.fld("intp.procStart")) }); ok && k <= 10000 {
+								nBounded++
+							}
+						}
+					}
+				})
+			}
+			if !(nPush > 0 && nPush == nBounded) {
+				break
+			}
 			if visitedSetGate(e.from, e.site) {
-				return "self-recursion behind a visited set: the call is dominated by `seen[k]` being false and `seen[k] = true` for a key derived from the argument, and passes the same set on; depth and total work are bounded by the number of distinct objects, each of which costs an operation or a token to create", true
+				return "self-recursion behind a visited set (and the nesting of procedure literals is limited where bodies are opened): the call is dominated by `seen[k]` being false and `seen[k] = true` for a key derived from the argument, and passes the same set on; depth and total work are bounded by the number of distinct objects, each of which costs an operation or a token to create", true
 			}
 		}
 		return "", false
